@@ -351,6 +351,30 @@ def s3_specs(ctx: Ctx) -> list[dict]:
 
 
 # ------------------------------------------------------------------------------------------------
+def s4_specs(ctx: Ctx) -> list[dict]:
+    """Evaluation times clearly apart from (>= 2e-3 ns), but close to, a multiple of a LARGE dt: a merge tolerance that
+    grows with dt (instead of with the duration only) swallows them."""
+    rng = ctx.rng
+    specs = []
+    durs = [6000, 8000, 10000] if ctx.quick else [4000, 5000, 6000, 7500, 8000, 9000, 10000]
+    for j, D in enumerate(durs):
+        for div in (2, 3, 4):
+            dt = D / div
+            if dt < 2000:
+                continue
+            for sign in (1, -1):
+                k = rng.randrange(1, div) if div > 1 else 0
+                delta = sign * rng.choice([2e-3, 1.5e-3 + 0.4e-6 * dt, 0.9e-6 * dt])
+                if abs(delta) < 2e-3:
+                    delta = sign * 2e-3
+                t = (k * dt + delta) / D
+                ev = sorted({t, 1.0} | ({k * dt / D} if (j + div) % 2 else set()))
+                how = (j + div) % 3
+                obs, dflt = ([ev], None) if how == 0 else ([None], ev) if how == 1 else ([[ev[0]], ev[1:] or [1.0]], None)
+                specs.append({"stratum": "S4", "kind": "near-multiple", "D": D, "mod": False, "dt": float(dt), "obs": obs, "default": dflt, "route": "fn"})
+    return specs
+
+
 def tlc_data(ctx: Ctx, cases: list[dict], name: str) -> dict[int, set]:
     """Hand recorded cases to TLC (TimeGridData.tla); returns {id: set of failing clauses}."""
     verdicts: dict[int, set] = {}
@@ -461,7 +485,7 @@ def run(ctx: Ctx) -> None:
     ctx.log(f"TLC merged/float: {r_m['distinct']} states, violated={r_m['violated']}")
 
     # ---------------------------------------------------------------- (2) binding C: real lists
-    specs = s1_specs(ctx, scenarios) + s2_specs(ctx) + s3_specs(ctx)
+    specs = s1_specs(ctx, scenarios) + s2_specs(ctx) + s3_specs(ctx) + s4_specs(ctx)
     for i, s in enumerate(specs):
         s["id"] = i + 1
     ctx.log(f"{len(specs)} grid cases")
